@@ -34,7 +34,7 @@ func genCloseCase(t *rapid.T) CloseCase {
 		case "stalled":
 			p.Proto = "tcp"
 		default:
-			p.Proto = rapid.SampledFrom([]string{"udp", "tcp", "tcp", "http", "ws"}).Draw(t, "proto")
+			p.Proto = rapid.SampledFrom([]string{"udp", "tcp", "tcp", "http", "ws", "auto"}).Draw(t, "proto")
 		}
 		if c.TLS && p.Proto == "udp" {
 			p.Proto = "tcp"
